@@ -40,9 +40,16 @@ def run(pid):
         frames = bs * rnd.randint(2, 5) + rnd.randint(0, bs - 1)
         jobs.append({"job_id": i + 1, "rate": 44100, "bps": bps, "channels": ch,
                      "opts": {"block_size": bs, "max_lpc": rnd.choice([-1, 4, 8, 12, 32]), "max_po": rnd.choice([0, 3, 6]),
-                              "mid_side": rnd.random() < 0.7, "fast_corr": rnd.random() < 0.4, "window": rnd.choice(corpus.WINDOWS),
+                              "mid_side": rnd.random() < 0.7, "fast_corr": rnd.random() < 0.4, "window": rnd.choice(corpus.WINDOWS + ["tukey:0.1", "tukey:0.9", "tukey:0.25", "tukey:0.1"]),
                               "padding": rnd.choice([-1, 100]), "seektable": rnd.choice(["none", {"frames": 1}])},
                      "pcm": {"signal": rnd.choice(["walk", "sine", "noise", "stereo", "wasted", "const", "impulse", "ramp", "constlo", "fade", "blockmix", "chanmix"]), "seed": rnd.randint(1, 10 ** 6), "frames": frames}})
+    # state that outlives one encode (per-thread caches, memoised tables) must not leak into the next: the same block size under
+    # window parameters that differ only in their value, back to back in one process and one pool
+    for bs in (256, 4096):
+        for w in ("tukey", "tukey:0.1", "tukey:0.9", "tukey:0.1", "tukey:0.25", "tukey"):
+            jobs.append({"job_id": len(jobs) + 1, "rate": 44100, "bps": 16, "channels": 2,
+                         "opts": {"block_size": bs, "max_lpc": 8, "max_po": 5, "mid_side": True, "fast_corr": False, "window": w, "padding": -1, "seektable": "none"},
+                         "pcm": {"signal": "sine", "seed": 4242, "frames": bs * 2 + bs // 3}})
     sp = os.path.join(wd, "serial.ndjson")
     run_drive("serial", {"out": sp, "jobs": jobs}, wd, tag="serial")
     pools = [1, 2, 3, 4, 8, 16]
